@@ -48,6 +48,9 @@ ASSUMPTIONS = [
     'cull_limit >= 0 in generated configurations (a negative LIMIT means no limit in SQLite; C09_bound is stated for >= 0)',
     'persistent containers: Deque.fromcache / Index.fromcache are exercised over a Cache the caller opened with eviction_policy="none" (the policy of a cache '
     'handed to fromcache is the caller\'s choice); size_limit, cull_limit and disk_min_file_size of the container\'s cache are lowered with Cache.reset',
+    'boundary limits: "eviction starts at the size limit" is read as: a set whose own volume() reading is at or above the limit, with a policy other than '
+    'none and cull_limit > 0, removes at least one row (possibly the one it stored); checked only in the boundary-limit cases, where the limit is at or below '
+    'the volume of the empty cache; the expected per-shard limit is size_limit / shards as Python computes it',
     'single client except for the bulk-removal contention cases, where the second client only holds locks (it writes nothing)',
 ]
 
@@ -1228,6 +1231,192 @@ def bulk_contention_checks(ctx, res, stats, cases):
 # plans
 
 
+# ---------------------------------------------------------------------------
+# boundary size limits (0, 1, a few bytes, exactly the volume of the empty cache) on Cache, FanoutCache and DjangoCache
+
+
+def _django_cache(d, shards, options):
+    from django.conf import settings as dj_settings
+    if not dj_settings.configured:
+        dj_settings.configure()
+    from diskcache.djangocache import DjangoCache
+    return DjangoCache(d, {'SHARDS': shards, 'DATABASE_TIMEOUT': 60, 'OPTIONS': dict(options)})
+
+
+def boundary_limit_case(case, d, stats=None):
+    """One object (Cache / FanoutCache / DjangoCache through OPTIONS) CONSTRUCTED with a size limit at or below the volume the empty
+    cache already has: 0, 1, a few bytes, exactly volume(empty) (per shard), one more.  Such a cache has reached its limit from the
+    first write on.  Decided per shard with the limit the property promises (size_limit / shards, whatever the shard itself reports):
+    the Monitor clauses on every write (at most cull_limit rows go, policy order, nothing under policy none), an explicit cull() ends at
+    or below the limit or with the shard empty and returns the number of rows that disappeared, and a write that read a volume at or
+    above the limit (policy not none, cull_limit > 0) removes at least one row.  Returns (hits, info)."""
+    import random
+    rng = random.Random(case['seed'])
+    stats = stats if stats is not None else new_stats()
+    kind, shards, policy, cull_limit = case['kind'], case['shards'], case['policy'], case['cull_limit']
+    hits, log = [], []
+    info = {'writes': 0, 'writes_at_or_over_limit': 0, 'culls': 0, 'removed_by_cull': 0}
+    clock = instr.Clock(1000.0)
+    with instr.Installed(clock):
+        probe = diskcache.Cache(os.path.join(d, 'probe'))
+        v0 = probe.volume()
+        probe.close()
+        how, x = case['limit']
+        total = x if how == 'abs' else shards * v0 + x
+        info['size_limit'] = total
+        options = dict(size_limit=total, eviction_policy=policy, cull_limit=cull_limit, disk_min_file_size=8)
+        target = os.path.join(d, 'c')
+        if kind == 'cache':
+            obj = diskcache.Cache(target, **options)
+            caches = [obj]
+        elif kind == 'fanout':
+            obj = diskcache.FanoutCache(target, shards=shards, **options)
+            caches = list(obj._shards)
+        else:
+            obj = _django_cache(target, shards, options)
+            caches = list(obj._cache._shards)
+        try:
+            want = total / len(caches) if kind != 'cache' else total
+            mons, readings = [], []
+            for idx, sh in enumerate(caches):
+                con = sqlite3.connect(os.path.join(sh.directory, 'cache.db'))
+                ((got_db,),) = con.execute('SELECT value FROM Settings WHERE key = "size_limit"').fetchall()
+                con.close()
+                if sh.size_limit != want or got_db != want:
+                    hits.append(('boundary_limit:shard_limit', '%s constructed with size_limit=%r: shard %d of %d has size_limit %r (Settings %r), expected %r'
+                                 % (kind, total, idx, len(caches), sh.size_limit, got_db, want)))
+                mons.append(Monitor(policy, cull_limit, want, stats))
+                rd = []
+                readings.append(rd)
+                inner = sh.volume
+
+                def volume(inner=inner, rd=rd):
+                    v = inner()
+                    rd.append(v)
+                    return v
+                sh.volume = volume
+            keys = [10 ** 15 + i for i in range(1, 13)] + ['k%d' % i for i in range(12)]
+            vals = [v for v in small_values() if not isinstance(v, Stream)]
+
+            def full(k):
+                return obj.make_key(k, version=None) if kind == 'django' else k
+
+            def shard_of(k):
+                if kind == 'cache':
+                    return 0
+                fc = obj._cache if kind == 'django' else obj
+                return fc._hash(full(k)) % len(caches)
+            befores = [rowdict(seqdrv.observe(sh.directory)[0]) for sh in caches]
+            now = 1000.0
+            plan = ['set'] * case['nwrites'] + ['cull'] + ['set'] * (case['nwrites'] // 2) + ['cull', 'cull']
+            for step, base_op in enumerate(plan):
+                now += rng.choice([TICK, 0.5, 1, 1, 2])
+                clock.set(now)
+                op = base_op
+                if op == 'set' and step > 3 and rng.random() < 0.3:
+                    op = 'get'
+                k = rng.choice(keys)
+                for rd in readings:
+                    del rd[:]
+                wsu = 64
+                result = None
+                if op == 'set':
+                    v = rng.choice(vals)
+                    wsu = size_upper(v, 5)
+                    ttl = rng.choice([None, None, None, 1, 2])
+                    result = obj.set(k, v, timeout=ttl) if kind == 'django' else obj.set(k, v, expire=ttl)
+                    log.append((op, repr(k), now, repr(v)[:16], ttl))
+                    info['writes'] += 1
+                elif op == 'get':
+                    got = obj.get(k, default=seqdrv.SENT)
+                    result = 'default' if got is seqdrv.SENT else got
+                    log.append((op, repr(k), now))
+                else:
+                    result = obj.cull()
+                    log.append((op, None, now))
+                    info['culls'] += 1
+                idx_t = shard_of(k)
+                gone_total = 0
+                for idx, sh in enumerate(caches):
+                    after = rowdict(seqdrv.observe(sh.directory)[0])
+                    gone = [i for i in befores[idx] if i not in after]
+                    gone_total += len(gone)
+                    rd = list(readings[idx])
+                    post = independent_volume(sh.directory)
+                    if op == 'cull':
+                        out = mons[idx].step('cull', None, now, None, befores[idx], after, rd, post)
+                    elif idx == idx_t:
+                        out = mons[idx].step(op, dbkey(sh.disk, full(k)), now, result, befores[idx], after, rd, post, None, wsu)
+                        if op == 'set' and rd and rd[-1] >= want:
+                            info['writes_at_or_over_limit'] += 1
+                            stored_here = any(r['k'] == dbkey(sh.disk, full(k)) for r in after.values())
+                            if policy != 'none' and cull_limit > 0 and not gone and stored_here:
+                                out.append(('boundary_limit:write_at_limit_evicted_nothing',
+                                            'set read volume %r >= size_limit %r (policy %s, cull_limit %d) and removed no row; %d row(s) stored'
+                                            % (rd[-1], want, policy, cull_limit, len(after))))
+                    else:
+                        out = mons[idx].step('len', None, now, None, befores[idx], after, [], post)
+                        out = [(('fanout_other_shard_changed' if s_ == 'read_removed' else s_), dsc) for s_, dsc in out]
+                    befores[idx] = after
+                    for s_, dsc in out:
+                        hits.append((s_, 'shard %d/%d: %s' % (idx, len(caches), dsc)))
+                if op == 'cull':
+                    info['removed_by_cull'] += gone_total
+                    if result != gone_total:
+                        hits.append(('cull_count', '%s.cull() returned %r but %d row(s) disappeared' % (kind, result, gone_total)))
+                if hits:
+                    break
+        finally:
+            obj.close()
+    info['ops'] = log
+    return hits, info
+
+
+def boundary_limit_cases(rng, quick):
+    limits = [['abs', 0], ['abs', 1], ['abs', 100], ['empty', 0], ['empty', 1], ['empty', -1]]
+    objs = [('cache', 1), ('fanout', 1), ('fanout', 2), ('fanout', 3), ('fanout', 4), ('django', 2), ('django', 3)]
+    cases = []
+    n = 0
+    for kind, shards in objs:
+        for lim in limits:
+            if quick and lim[0] == 'empty' and lim[1] != 0 and (n % 3):
+                n += 1
+                continue
+            pols = POLICIES if not quick else [POLICIES[n % 3], 'none'][:2 if n % 4 == 0 else 1]
+            for policy in pols:
+                cls = CULL_LIMITS if not quick else [[10, 1, 2, 0][n % 4]]
+                for cl in cls:
+                    cases.append({'check': 'boundary_limit', 'kind': kind, 'shards': shards, 'limit': lim, 'policy': policy, 'cull_limit': cl,
+                                  'nwrites': 24 if quick else 40, 'seed': rng.randrange(10 ** 6)})
+            n += 1
+    return cases
+
+
+def boundary_limit_checks(ctx, res, stats, cases):
+    seen = set()
+    n_at = 0
+    for case in cases:
+        d = ctx.scratch('c09b')
+        try:
+            hits, info = boundary_limit_case(case, d, stats)
+        except Exception as e:  # noqa
+            hits, info = [('boundary_limit:error', 'the case failed with %r' % (e,))], {}
+        shutil.rmtree(d, ignore_errors=True)
+        n_at += info.get('writes_at_or_over_limit', 0)
+        stats['boundary_limit_cases'] = stats.get('boundary_limit_cases', 0) + 1
+        stats['boundary_limit_rows_removed_by_cull'] = stats.get('boundary_limit_rows_removed_by_cull', 0) + info.get('removed_by_cull', 0)
+        res.count(['boundary-limit', {k: v for k, v in case.items() if k != 'seed'}, info.get('ops', [])[:6]], nontrivial=info.get('removed_by_cull', 0) > 0)
+        for sig, desc in hits:
+            if sig in seen:
+                continue
+            seen.add(sig)
+            c = dict(case)
+            c.update({'size_limit': info.get('size_limit'), 'ops': info.get('ops', [])[-40:], 'sig': sig, 'what': desc})
+            res.violations.append(fw.Violation(sig, '%s [%s(shards=%d) constructed with size_limit %r = %r, policy %s, cull_limit %d]' % (
+                desc, case['kind'], case['shards'], case['limit'], info.get('size_limit'), case['policy'], case['cull_limit']), c))
+    stats['boundary_limit_writes_at_or_over_limit'] = n_at
+
+
 def plan_for(ctx, per_combo, length, big_every=0):
     plan = []
     j = 0
@@ -1257,7 +1446,11 @@ RULE = ('random histories of set/add/get/incr/push/touch/delete/pop/contains/cul
         'cull / expire / evict / clear on FanoutCache(timeout=0, shards 1-3, every policy, retry False/True) with several pages of removable '
         'items per shard, while a second connection takes every shard\'s write lock just before the call\'s t-th BEGIN (t >= 2: after a committed '
         'page) and releases it k failed attempts later (one or two such episodes): the returned count must be the number of rows that '
-        'disappeared, and the per-shard clauses of the monitor (expired first, down to the limit, policy order, nothing unexpired under none) hold.')
+        'disappeared, and the per-shard clauses of the monitor (expired first, down to the limit, policy order, nothing unexpired under none) hold.  '
+        'Boundary size limits: Cache, FanoutCache(shards 1-4) and DjangoCache(OPTIONS, SHARDS 2-3) CONSTRUCTED with size_limit 0, 1, 100, '
+        'shards * volume(empty) and one byte either side: every shard must carry size_limit / shards, the monitor runs per shard against that '
+        'limit over sets with ttls, gets and cull() calls (cull() ends at or below the limit or with the shard empty and returns the rows that '
+        'disappeared), and a set that read a volume at or above the limit (policy not none, cull_limit > 0) removes at least one row.')
 
 
 def report(res):
@@ -1289,6 +1482,7 @@ def run(ctx):
     directed_cull_histories(ctx, res, stats, ndirected_model, kept)
     directed_cull_histories(ctx, res, stats, ndirected - ndirected_model, None)
     fanout_checks(ctx, res, stats, nfan)
+    boundary_limit_checks(ctx, res, stats, boundary_limit_cases(ctx.rng, ctx.quick))
     container_checks(ctx, res, stats, container_cases(ctx.rng, ctx.quick))
     bulk_contention_checks(ctx, res, stats, bulk_contention_cases(ctx.rng, ctx.quick))
     witnesses(res)
@@ -1321,6 +1515,7 @@ def search(ctx, broken):
     monitored_histories(ctx, res, stats, plan)
     directed_cull_histories(ctx, res, stats, 12 if ctx.quick else 36, None)
     fanout_checks(ctx, res, stats, 8 if ctx.quick else 24)
+    boundary_limit_checks(ctx, res, stats, boundary_limit_cases(ctx.rng, ctx.quick))
     container_checks(ctx, res, stats, container_cases(ctx.rng, ctx.quick))
     bulk_contention_checks(ctx, res, stats, bulk_contention_cases(ctx.rng, ctx.quick))
     witnesses(res)
@@ -1383,6 +1578,18 @@ def replay(payload):
                 hits, info = bulk_contention_case(case, d)
                 print('%s on %d shard(s), %d items: returned %r, %d item(s) disappeared, %d BEGIN attempts (%d failed)'
                       % (case['op'], case['shards'], case['items'], info.get('result'), info.get('gone', -1), info.get('begins', 0), info.get('failed_begins', 0)))
+            for sig, desc in hits:
+                print('MONITOR [%s]: %s' % (sig, desc))
+            return not hits
+        finally:
+            shutil.rmtree(d, ignore_errors=True)
+    if check == 'boundary_limit':
+        d = tempfile.mkdtemp(prefix='c09r-')
+        try:
+            hits, info = boundary_limit_case(case, d)
+            print('%s(shards=%d) constructed with size_limit=%r, policy %s, cull_limit %d: %d writes (%d at or above the limit), %d cull() calls removed %d row(s)'
+                  % (case['kind'], case['shards'], info.get('size_limit'), case['policy'], case['cull_limit'], info.get('writes', 0),
+                     info.get('writes_at_or_over_limit', 0), info.get('culls', 0), info.get('removed_by_cull', 0)))
             for sig, desc in hits:
                 print('MONITOR [%s]: %s' % (sig, desc))
             return not hits
